@@ -127,16 +127,18 @@ def findDf (id : String) : Option Schema.DfSpec := Gen.dfTable.find? (·.id == i
 
 def zeroBuf : List Nat := List.replicate 16 0
 
-def opDfEnc (cfg : Cfg) (id : String) (ws : List String) : String :=
+def opDfEncFill (fill : Nat) (cfg : Cfg) (id : String) (ws : List String) : String :=
   match findDf id, parseToks ws with
   | some s, some ts =>
-    match Df.encode cfg s ts { data := zeroBuf, off := 0 } with
+    match Df.encode cfg s ts { data := (List.replicate 16 fill), off := 0 } with
     | .ok (c, []) =>
       resStr (fun r => s!"{r.1} {c.off}") (Bits.parse cfg ⟨.u, 64⟩ c.data 0 c.off)
     | .ok (_, _) => "BAD-OP"
     | .err e => "ERR " ++ e.name
     | .panic w => if w.startsWith "tokens" then "BAD-OP" else "PANIC"
   | _, _ => "BAD-OP"
+
+def opDfEnc (cfg : Cfg) (id : String) (ws : List String) : String := opDfEncFill 0 cfg id ws
 
 def opDfDec (cfg : Cfg) (id : String) (len pattern : Nat) : String :=
   match findDf id with
@@ -219,6 +221,7 @@ def parseNatsSp (ws : List String) : Option (List Nat) := ws.mapM String.toNat?
 def handleCfg (cfg : Cfg) (toks : List String) : String :=
   match toks with
   | ["DEC", h] => match bytesOfHex h with | some d => opDec cfg d | none => "BAD-OP"
+  | "DFENCF" :: id :: ws => opDfEncFill 255 cfg id ws
   | "ENC" :: ws => opEnc cfg ws
   | "ENCD" :: ws => opEnc cfg ws   -- the same value in containers with a history: equal values, equal frames
   | "BUILDSEQ" :: ws => opBuildSeq cfg ws
